@@ -74,6 +74,9 @@ type Run struct {
 	// Shadow: self-test run on an in-memory variant of the tree; prints
 	// SHADOW lines only, writes no evidence and no violation files.
 	Shadow bool
+	// Opaque: given a component of an obligation key (a function name), a description of why that function cannot
+	// be followed by the engines ("" when it can). Set by the rules package.
+	Opaque func(name string) string
 }
 
 func NewRun(prop, tier string, p *prog.Program, roots []*prog.Root, mods *term.Mods) *Run {
@@ -106,6 +109,17 @@ func (r *Run) add(rule, key, where, detail string, st Status, witness []string) 
 
 func (r *Run) Discharge(rule, key, where, detail string) { r.add(rule, key, where, detail, Discharged, nil) }
 func (r *Run) Violate(rule, key, where, detail string, witness ...string) {
+	// A violation found in a function that has been restructured in a way the engines cannot follow (see Opaque)
+	// is not asserted: it is reported as undecided, with the reason.
+	if r.Opaque != nil {
+		parts := strings.Split(key, "|")
+		for _, p := range parts[1:] {
+			if why := r.Opaque(p); why != "" {
+				r.add(rule, key, where, "not decided: "+why+". Without following it the rule reports: "+detail, Undecided, nil)
+				return
+			}
+		}
+	}
 	r.add(rule, key, where, detail, Violated, witness)
 }
 func (r *Run) Undecide(rule, key, where, detail string) { r.add(rule, key, where, detail, Undecided, nil) }
